@@ -287,7 +287,7 @@ func (c *FunctionComposer) Compose(ctx context.Context, xr *composite.Unstructur
 		if fn.Input != nil {
 			in := &structpb.Struct{}
 			if err := in.UnmarshalJSON(fn.Input.Raw); err != nil {
-				return CompositionResult{}, errors.Wrapf(err, errFmtUnmarshalPipelineStepInput, fn.Step)
+				return CompositionResult{Events: events, Conditions: conditions}, errors.Wrapf(err, errFmtUnmarshalPipelineStepInput, fn.Step)
 			}
 			req.Input = in
 		}
@@ -301,7 +301,7 @@ func (c *FunctionComposer) Compose(ctx context.Context, xr *composite.Unstructur
 
 			s := &corev1.Secret{}
 			if err := c.client.Get(ctx, client.ObjectKey{Namespace: cs.SecretRef.Namespace, Name: cs.SecretRef.Name}, s); err != nil {
-				return CompositionResult{}, errors.Wrapf(err, errFmtGetCredentialsFromSecret, fn.Step, cs.Name)
+				return CompositionResult{Events: events, Conditions: conditions}, errors.Wrapf(err, errFmtGetCredentialsFromSecret, fn.Step, cs.Name)
 			}
 			req.Credentials[cs.Name] = &fnv1.Credentials{
 				Source: &fnv1.Credentials_CredentialData{
@@ -316,7 +316,9 @@ func (c *FunctionComposer) Compose(ctx context.Context, xr *composite.Unstructur
 		// Perhaps using https://github.com/cerbos/protoc-gen-go-hashpb ?
 		rsp, err := c.pipeline.RunFunction(ctx, fn.FunctionRef.Name, req)
 		if err != nil {
-			return CompositionResult{}, errors.Wrapf(err, errFmtRunPipelineStep, fn.Step)
+			// Results and conditions of the steps that already ran are still
+			// passed up, exactly as they are when a step returns a fatal result.
+			return CompositionResult{Events: events, Conditions: conditions}, errors.Wrapf(err, errFmtRunPipelineStep, fn.Step)
 		}
 
 		// Pass the desired state returned by this Function to the next one.
